@@ -29,6 +29,7 @@ class Config:
     id_kind: str = "contig"  # contig | sparse
     skip_prob: float = 0.2
     seed: int = 0
+    custom: bool = False  # register a custom node feature "score" and edge feature "weight"
 
     def to_json(self):
         d = asdict(self)
@@ -94,6 +95,7 @@ def random_config(rng: random.Random, *, seg=None, ndim=None, allow3d_shape=True
         id_kind=rng.choice(["contig", "sparse"]),
         skip_prob=rng.choice([0.0, 0.2, 0.2, 0.5]),
         seed=rng.randrange(1 << 30),
+        custom=rng.random() < 0.4,
     )
 
 
@@ -329,4 +331,20 @@ def build_tracks(cfg: Config):
         raise ValueError(build)
     for k in cfg.extra:
         tracks.enable_features([k])
+    if cfg.custom:
+        # registered custom (static) features, as an importer registers loaded columns
+        from funtracks.features import Feature
+
+        tracks.features["score"] = Feature(feature_type="node", value_type="float",
+                                           num_values=1, display_name="score",
+                                           required=False, default_value=None)
+        tracks.features["weight"] = Feature(feature_type="edge", value_type="float",
+                                            num_values=1, display_name="weight",
+                                            required=False, default_value=None)
+        for n in tracks.graph.nodes:
+            if rng.random() < 0.8:
+                tracks.graph.nodes[n]["score"] = round(rng.random(), 3)
+        for e in tracks.graph.edges:
+            if rng.random() < 0.8:
+                tracks.graph.edges[e]["weight"] = round(rng.random(), 3)
     return tracks, forest, rng
